@@ -89,13 +89,17 @@ cJSON *create_routed_message(const struct peer *p, const char *path, enum type w
 	if (unlikely(json_id == NULL)) {
 		goto error;
 	}
-	cJSON_AddItemToObject(message, "id", json_id);
+	if (unlikely(!add_item_to_object(message, "id", json_id))) {
+		goto error;
+	}
 
 	cJSON *method = cJSON_CreateString(path);
 	if (unlikely(method == NULL)) {
 		goto error;
 	}
-	cJSON_AddItemToObject(message, "method", method);
+	if (unlikely(!add_item_to_object(message, "method", method))) {
+		goto error;
+	}
 
 	cJSON *value_copy;
 	if (value != NULL) {
@@ -108,14 +112,22 @@ cJSON *create_routed_message(const struct peer *p, const char *path, enum type w
 	}
 
 	if (what == METHOD) {
-		cJSON_AddItemToObject(message, "params", value_copy);
+		if (unlikely(!add_item_to_object(message, "params", value_copy))) {
+			goto error;
+		}
 	} else {
 		cJSON *params = cJSON_CreateObject();
 		if (unlikely(params == NULL)) {
+			cJSON_Delete(value_copy);
 			goto error;
 		}
-		cJSON_AddItemToObject(message, "params", params);
-		cJSON_AddItemToObject(params, "value", value_copy);
+		if (unlikely(!add_item_to_object(message, "params", params))) {
+			cJSON_Delete(value_copy);
+			goto error;
+		}
+		if (unlikely(!add_item_to_object(params, "value", value_copy))) {
+			goto error;
+		}
 	}
 
 	return message;
